@@ -496,8 +496,8 @@ def main(ctx: Ctx) -> int:
     cov["states"], cov["transitions"] = states, trans
 
     bins = build_binaries(ctx)
-    spec_to_code(ctx, bins, 300 if ctx.quick else 4000, cov)
-    code_to_spec(ctx, bins, 400 if ctx.quick else 6000, cov)
+    spec_to_code(ctx, bins, 300 if ctx.quick else 16000, cov)
+    code_to_spec(ctx, bins, 400 if ctx.quick else 24000, cov)
     odeint_part(ctx, bins, cov)
     cov["rule"] = ("fault scripts = per-call outcomes (success | flag,fraction) + CVodeReInit flags; non-trivial = at least one "
                    "failure; distinct by the sequence of failing flags / reinit results / return value")
